@@ -98,10 +98,15 @@ class CallObjectMethodOpcode(Param1Opcode):
     def process(self, context: Context, stack: List[Node], \
                 fn: FunctionDef, index: int):
         var_type = self.param1
+        receiver = None
+        if var_type in (1, 2, 3) and len(stack) > 0:
+            # The receiver node (a global keeps its '_global.' in JS)
+            receiver = stack[len(stack) - 1]
         fname = findVarName(var_type, context, stack, fn)
                     
         params: LoadListOperation = cast(LoadListOperation, stack.pop())
         op = CallFunction(fname, index, False)
+        op.receiver = receiver
         op.parameters = params
         operands = params.operands
         op.parameters.operands = []
